@@ -194,5 +194,12 @@ def r5_scalar_tables(chk: Check) -> None:
     chk.decide(True if len(raises) >= 2 else None, "C20.R5", reg, "name and strategy are validated before registration", "validation not recognised", reg.loc())
 
 
+def r6_filter_sets_not_shared(chk: Check) -> None:
+    chk.rule("C20.R6", "FRESH(filter set of a derived schema): GraphQLSchema.include / exclude derive from FilterSet.clone(); the clone owns copies of both sets, so the root fields offered (and the selected/total counts) of one derived schema do not change when a sibling is derived from the same parent", floor=1)
+    from .c07 import filterset_clone_clause
+
+    filterset_clone_clause(chk, "C20.R6")
+
+
 def rules(tier: str) -> list:  # type: ignore[type-arg]
-    return [r1_factory_plumbing, r2_enumeration, r3_transport_body, r4_client_schema_single_source, r5_scalar_tables, rfwd_forwarding]
+    return [r1_factory_plumbing, r2_enumeration, r3_transport_body, r4_client_schema_single_source, r5_scalar_tables, rfwd_forwarding, r6_filter_sets_not_shared]
